@@ -37,31 +37,68 @@ func Load(cfg LoadConfig) (*Program, error) {
 		}
 		overlay[filepath.Join(cfg.RepoDir, "zz_verif_"+base)] = b
 	}
-	fset := token.NewFileSet()
-	pc := &packages.Config{
-		Mode:    packages.LoadAllSyntax,
-		Dir:     cfg.RepoDir,
-		Fset:    fset,
-		Overlay: overlay,
-		Env:     append(os.Environ(), "GOFLAGS=-mod=mod", "GOPROXY=off"),
-		Tests:   false,
-	}
-	if len(cfg.Tags) > 0 {
-		pc.BuildFlags = []string{"-tags=" + strings.Join(cfg.Tags, ",")}
-	}
-	pkgs, err := packages.Load(pc, ".")
-	if err != nil {
-		return nil, err
-	}
-	if packages.PrintErrors(pkgs) > 0 {
-		return nil, fmt.Errorf("package load errors")
+	// A change of /repo may rename or re-type something one harness file
+	// uses. All harness files of a package are compiled together, so such a
+	// file would take every check of the package down with it: harness files
+	// that do not type-check against the current tree are dropped (with
+	// their dependants, iteratively) and only their harnesses are reported
+	// as not runnable.
+	dropped := map[string]string{}
+	var pkgs []*packages.Package
+	var fset *token.FileSet
+	for round := 0; ; round++ {
+		fset = token.NewFileSet()
+		pc := &packages.Config{
+			Mode:    packages.LoadAllSyntax,
+			Dir:     cfg.RepoDir,
+			Fset:    fset,
+			Overlay: overlay,
+			Env:     append(os.Environ(), "GOFLAGS=-mod=mod", "GOPROXY=off"),
+			Tests:   false,
+		}
+		if len(cfg.Tags) > 0 {
+			pc.BuildFlags = []string{"-tags=" + strings.Join(cfg.Tags, ",")}
+		}
+		var err error
+		pkgs, err = packages.Load(pc, ".")
+		if err != nil {
+			return nil, err
+		}
+		bad := map[string]string{}
+		other := false
+		for _, pk := range pkgs {
+			for _, e := range pk.Errors {
+				file := e.Pos
+				if i := strings.Index(file, ":"); i > 0 {
+					file = file[:i]
+				}
+				if _, ok := overlay[file]; ok && strings.HasPrefix(filepath.Base(file), "zz_verif_") && filepath.Base(file) != "zz_verif_api.go" {
+					if _, seen := bad[file]; !seen {
+						bad[file] = e.Msg
+					}
+				} else {
+					other = true
+				}
+			}
+		}
+		if len(bad) == 0 || other || round >= 8 {
+			if packages.PrintErrors(pkgs) > 0 {
+				return nil, fmt.Errorf("package load errors")
+			}
+			break
+		}
+		for f, msg := range bad {
+			delete(overlay, f)
+			dropped[filepath.Base(f)] = msg
+			fmt.Fprintf(os.Stderr, "harness file %s does not compile against this tree and is left out: %s\n", filepath.Base(f), msg)
+		}
 	}
 	prog, spkgs := ssautil.AllPackages(pkgs, ssa.InstantiateGenerics)
 	prog.Build()
 	if len(spkgs) == 0 || spkgs[0] == nil {
 		return nil, fmt.Errorf("no SSA package")
 	}
-	p := &Program{Prog: prog, Main: spkgs[0], Fset: fset, numbers: map[*ssa.Function]*fnInfo{}, InitPkgs: map[string]bool{}}
+	p := &Program{Prog: prog, Main: spkgs[0], Fset: fset, numbers: map[*ssa.Function]*fnInfo{}, InitPkgs: map[string]bool{}, Dropped: dropped}
 	for _, ip := range cfg.InitPkgs {
 		p.InitPkgs[ip] = true
 	}
